@@ -1023,6 +1023,8 @@ func commitIndex(db aquadb.Database, size uint64, sections uint64) bool {
 			if err != nil {
 				return false
 			}
+			noteVec(bits)
+			// exactly what aqua.BloomIndexer.Commit writes
 			core.WriteBloomBits(batch, uint(i), s, head, bitutil.CompressBytes(bits))
 		}
 		if err := batch.Write(); err != nil {
@@ -1030,6 +1032,26 @@ func commitIndex(db aquadb.Database, size uint64, sections uint64) bool {
 		}
 	}
 	return true
+}
+
+// vecStats: how the committed bit vectors relate to the break-even point of the storage codec (reported through run.Count).
+var vecStats = map[string]int{}
+
+func noteVec(bits []byte) {
+	switch e := encLen(bits); {
+	case e == 0:
+		vecStats["index-vector:all-zero"]++
+	case e == len(bits):
+		vecStats["index-vector:encoding-equals-length"]++
+	case e == len(bits)-1:
+		vecStats["index-vector:encoding-one-shorter"]++
+	case e == len(bits)+1:
+		vecStats["index-vector:encoding-one-longer"]++
+	case e < len(bits):
+		vecStats["index-vector:compressible"]++
+	default:
+		vecStats["index-vector:incompressible"]++
+	}
 }
 
 type chainSpec struct {
@@ -1591,6 +1613,23 @@ func main() {
 		g.partChains(specs, 40)
 	} else {
 		g.partChains(quick, 24)
+	}
+	// the index as stored (bitutil codec), busy contracts at the codec's break-even density, the real ChainIndexer under a reorg
+	g = &gen{r: rng.Fork(7), run: run}
+	dd := &dropper{r: rng.Fork(78)}
+	if run.Thorough() {
+		g.partCompress(3000)
+		for i := 0; i < 6; i++ {
+			g.partBusy(dd)
+		}
+		g.partReorg(9, dd)
+	} else {
+		g.partCompress(200)
+		g.partBusy(dd)
+		g.partReorg(2, dd)
+	}
+	for k, v := range vecStats {
+		run.Hist[k] += v
 	}
 	run.Finish()
 }
